@@ -21,22 +21,119 @@ def _work(i):
     return r
 
 
-def run_catalogue(run, cases, seed=0, procs=None, property_filter=None, **kw):
+def _run_isolated(indices, procs, task_timeout):
+    """fork one child per case (copy-on-write, a few ms); a child that dies (segfault in NumPy on a corrupted view, OOM kill) or hangs
+    yields a 'crashed' result for that case instead of hanging the whole check"""
+    import pickle
+    import select
+    import signal
+    pending = list(indices)[::-1]
+    running = {}          # fd -> [pid, index, start, buffer]
+    results = []
+    while pending or running:
+        while pending and len(running) < procs:
+            i = pending.pop()
+            r, w = os.pipe()
+            pid = os.fork()
+            if pid == 0:
+                os.close(r)
+                code = 0
+                try:
+                    data = pickle.dumps(_work(i))
+                    with os.fdopen(w, "wb") as f:
+                        f.write(data)
+                except BaseException:
+                    code = 1
+                os._exit(code)
+            os.close(w)
+            running[r] = [pid, i, time.time(), b""]
+        ready, _, _ = select.select(list(running), [], [], 1.0)
+        for fd in ready:
+            chunk = os.read(fd, 1 << 20)
+            if chunk:
+                running[fd][3] += chunk
+                continue
+            pid, i, t0, buf = running.pop(fd)
+            os.close(fd)
+            _, status = os.waitpid(pid, 0)
+            try:
+                results.append(pickle.loads(buf))
+            except Exception:
+                results.append(_crashed(i, "worker process died (wait status %d%s) while running this case" % (status, ", signal %d" % (status & 0x7f) if status & 0x7f else "")))
+        now = time.time()
+        for fd, (pid, i, t0, buf) in list(running.items()):
+            if now - t0 > task_timeout:
+                try:
+                    os.kill(pid, signal.SIGKILL)
+                except OSError:
+                    pass
+                os.waitpid(pid, 0)
+                os.close(fd)
+                del running[fd]
+                results.append(_crashed(i, "worker exceeded %ds and was killed" % task_timeout))
+    return results
+
+
+def _crashed(i, why):
+    c = _CASES[i]
+    r = {"index": i, "name": getattr(c, "name", "?"), "key": getattr(c, "key", {}), "obligations": 0, "discharged": 0, "backends": {}, "paths": 0, "solver_s": 0.0, "failures": [],
+         "undecided": [], "errors": [], "notes": [], "status": "crashed", "faithful": 0, "sample": None, "wall": 0.0, "crash": why}
+    # a crash of the symbolic run is decided by the case's own native replay (run in a child as well), if it has one
+    hook = getattr(c, "on_crash", None)
+    verdict = None
+    if hook is not None:
+        verdict = _in_child(lambda: hook(why), 120)
+    if isinstance(verdict, dict) and verdict.get("failure"):
+        r["failures"].append(verdict["failure"])
+    else:
+        r["errors"].append("%s %s: %s%s" % (r["name"], r["key"], why, "" if verdict is None else " (native replay: %s)" % str(verdict)[:300]))
+    return r
+
+
+def _in_child(fn, timeout):
+    import pickle
+    import select
+    import signal
+    r, w = os.pipe()
+    pid = os.fork()
+    if pid == 0:
+        os.close(r)
+        try:
+            data = pickle.dumps(fn())
+            with os.fdopen(w, "wb") as f:
+                f.write(data)
+        except BaseException:
+            pass
+        os._exit(0)
+    os.close(w)
+    buf = b""
+    t0 = time.time()
+    while True:
+        ready, _, _ = select.select([r], [], [], 1.0)
+        if ready:
+            chunk = os.read(r, 1 << 20)
+            if not chunk:
+                break
+            buf += chunk
+        elif time.time() - t0 > timeout:
+            os.kill(pid, signal.SIGKILL)
+            break
+    os.close(r)
+    os.waitpid(pid, 0)
+    try:
+        return pickle.loads(buf)
+    except Exception:
+        return None
+
+
+def run_catalogue(run, cases, seed=0, procs=None, property_filter=None, task_timeout=420, **kw):
     """cases: list of VCase (or objects with .run(seed) -> result dict). Results are folded into `run`."""
     global _CASES, _SEED, _KW
     _CASES = cases
     _SEED = seed
     _KW = kw
     procs = procs or min(16, os.cpu_count() or 4)
-    results = []
-    if procs > 1 and len(cases) > 1:
-        ctx = mp.get_context("fork")
-        with ctx.Pool(procs, maxtasksperchild=200) as pool:
-            for r in pool.imap_unordered(_work, range(len(cases)), chunksize=1):
-                results.append(r)
-    else:
-        for i in range(len(cases)):
-            results.append(_work(i))
+    results = _run_isolated(range(len(cases)), max(1, procs), task_timeout) if len(cases) > 0 else []
     results.sort(key=lambda r: r["index"])
     fold(run, cases, results)
     return results
